@@ -13,9 +13,10 @@ func init() { drivers["c12"] = runC12 }
 
 func runC12(o opts) error {
 	ctx := &c12.Ctx{G: trace.NewInterner(" "), L: trace.NewInterner("")}
-	var scns []*c01.Scn
+	var scns []*c12.Scn
+	add := func(sc *c01.Scn) { scns = append(scns, &c12.Scn{Scn: *sc}) }
 	if o.replay != "" {
-		l, err := trace.LoadReplay[c01.Scn](o.replay)
+		l, err := trace.LoadReplay[c12.Scn](o.replay)
 		if err != nil {
 			return err
 		}
@@ -38,18 +39,27 @@ func runC12(o opts) error {
 			if len(sc.Frames) == 0 {
 				continue
 			}
-			scns = append(scns, sc)
+			add(sc)
 		}
 		for _, sc := range c01.GenChains(rng, o.tier == "thorough", 20) {
 			sc.Mask = 1<<1 | 1<<6
-			scns = append(scns, sc)
+			add(sc)
 		}
 		for _, sc := range c01.Fixed() {
 			if sc.Mask == 1<<1 {
 				sc.Mask = 1<<1 | 1<<6
-				scns = append(scns, sc)
+				add(sc)
 			}
 		}
+		// cells whose neighbours would join them into one cluster; frames longer than one read of the
+		// emulator's parser; pictures drawn with the graphics protocol the emulator advertises
+		nnb := 60
+		if o.tier == "thorough" {
+			nnb = 3000
+		}
+		scns = append(scns, c12.GenNeighbours(rng, nnb)...)
+		scns = append(scns, c12.GenBig(rng, o.tier == "thorough")...)
+		scns = append(scns, c12.GenSixel(rng, o.tier == "thorough")...)
 	}
 	sink, err := trace.NewSink(o.out, o.shards)
 	if err != nil {
@@ -57,7 +67,7 @@ func runC12(o opts) error {
 	}
 	type job struct {
 		i  int
-		sc *c01.Scn
+		sc *c12.Scn
 	}
 	var wg sync.WaitGroup
 	ch := make(chan job)
